@@ -114,3 +114,24 @@ package msgpacker
 //@   ensures [budget-share] wfPacker(p) && p.currentMsgPackSize == 0
 //@   modifies p.msgs, p.msgs[*], p.currentMsgPackSize, MemoryProtector.current, myShare, othersShare, addOver, delivered, hret, TimerChecker.lastTime, MsgCountChecker.count
 //@   panics never
+
+// ---- C14: a new batcher is empty and well formed ---------------------------------------------------------------------
+//@ func GetMemoryChecker
+//@   props C14
+//@   ensures result != nil
+//@   modifies MemoryProtector.max, MemoryProtector.current, othersShare
+// the second look at max after taking the write lock differs from the first only under concurrency (single-goroutine reasoning)
+//@   unreachable return@2
+//@ func NewTimerChecker
+//@   props C14
+//@   ensures result != nil && freshRef(result)
+//@   modifies fresh(TimerChecker.*)
+//@ func NewMsgCountChecker
+//@   props C14
+//@   ensures result != nil && freshRef(result)
+//@   modifies fresh(MsgCountChecker.*)
+//@ func NewPacker
+//@   props C14
+//@   ensures [a-new-batcher-is-empty] result != nil && freshRef(result) && len(result.msgs) == 0 && result.currentMsgPackSize == 0 && result.memoryProtector != nil
+//@   ensures [its-checkers-exist] forall i int :: 0 <= i && i < len(result.checkers) ==> result.checkers[i] != nil
+//@   modifies MemoryProtector.max, MemoryProtector.current, othersShare, fresh(Packer.*), fresh(TimerChecker.*), fresh(MsgCountChecker.*), fresh([]PackerChecker), fresh([]*api.ReplicateMsg)
